@@ -9,6 +9,10 @@
 (* configured for the binding the request arrived on (none configured: not  *)
 (* compared at all).  Fixed = TRUE: with none for that binding, the          *)
 (* endpoints of the service on any binding are used.                        *)
+(* Fixed = FALSE also has the certificate-only shortcut of _check_signature:   *)
+(* with want_authn_requests_only_with_valid_cert a signature that did not     *)
+(* verify is let through when the certificate it was tried with is           *)
+(* acceptable ("if verified or only_valid_cert").                            *)
 (* The signature part is the SigDoc model with relied = {request}; here a    *)
 (* wrapped request is one more kind of signature state.                     *)
 (***************************************************************************)
@@ -24,7 +28,8 @@ Muts == {"none", "dest_foreign", "dest_absent", "dest_other_binding", "stale", "
          "garbled_base64", "garbled_deflate", "truncated_xml", "not_xml"}
 \* issuerKey: metadata holds a signing key for the requester, or none
 Scn == [rtype : Types, binding : Bindings, sig : Sigs, want : BOOLEAN, mut : Muts, endpoint : {"configured", "otherBindingOnly"},
-        issuerKey : {"known", "nokey"}]
+        issuerKey : {"known", "nokey"},
+        certOnly : BOOLEAN]          \* want_authn_requests_only_with_valid_cert (implies that requests must be signed)
 WellFormed(s) ==
     /\ (s.rtype = "authn" => s.binding \in {"redirect", "post"})
     /\ (s.rtype \in Queries => s.binding = "soap" /\ s.endpoint = "configured")
@@ -35,6 +40,8 @@ WellFormed(s) ==
     /\ (s.endpoint = "otherBindingOnly" => s.binding = "post")    \* receiver publishes a redirect endpoint only
     /\ (s.mut = "dest_other_binding" => s.endpoint = "configured" /\ s.rtype \notin Queries)
     /\ (s.issuerKey = "nokey" => s.sig \in {"valid", "invalid"} /\ s.mut = "none" /\ s.endpoint = "configured")
+    /\ (s.certOnly => s.rtype \in {"authn", "logout_idp", "attrquery"} /\ s.issuerKey = "known" /\ s.endpoint = "configured"
+                      /\ s.mut \in {"none", "dest_foreign", "stale"} /\ ~s.want)
 
 VARIABLES scn, pc, verdict
 vars == <<scn, pc, verdict>>
@@ -47,9 +54,10 @@ Unravel == pc = "unravel" /\ IF scn.mut \in {"garbled_base64", "garbled_deflate"
 Signature ==
     /\ pc = "signature"
     /\ IF scn.mut \in {"truncated_xml", "not_xml", "wrong_root"} THEN Refuse
-       ELSE IF scn.sig = "none" THEN (IF scn.want THEN Refuse ELSE Goto("schema"))
+       ELSE IF scn.sig = "none" THEN (IF scn.want \/ scn.certOnly THEN Refuse ELSE Goto("schema"))
        ELSE IF scn.issuerKey = "nokey" THEN Refuse          \* MissingKey: nothing to verify the signature with
        ELSE IF scn.sig = "valid" THEN Goto("schema")
+       ELSE IF scn.sig = "invalid" /\ scn.certOnly /\ ~Fixed THEN Goto("schema")      \* pinned: "if verified or only_valid_cert"
        ELSE Refuse                                          \* invalid; wrapped (repaired _check_signature)
 Schema == pc = "schema" /\ IF scn.mut = "schema" THEN Refuse ELSE Goto("verify")
 \* Request._verify
@@ -66,12 +74,12 @@ MustRefuse == \/ scn.mut \in {"dest_foreign", "stale", "future", "wrong_root", "
                               "garbled_deflate", "truncated_xml", "not_xml"}
               \/ scn.sig \in {"invalid", "wrapped"}
               \/ (scn.sig # "none" /\ scn.issuerKey = "nokey")          \* a signature must verify under the issuer's metadata key
-              \/ (scn.want /\ scn.sig = "none")
+              \/ ((scn.want \/ scn.certOnly) /\ scn.sig = "none")
 \* (the property is an "only if"; acceptance of valid requests is demanded as a sanity condition, except for the
 \* authorisation-decision query, for which soap.py has no envelope parser: it can never be received over SOAP)
 MustHand == /\ scn.rtype # "authzquery"
             /\ scn.mut \in {"none", "dest_absent"} /\ scn.endpoint = "configured" /\ scn.issuerKey = "known"
-            /\ (scn.sig = "valid" \/ (scn.sig = "none" /\ ~scn.want))
+            /\ (scn.sig = "valid" \/ (scn.sig = "none" /\ ~scn.want /\ ~scn.certOnly))
 Emit == /\ pc = "done" /\ pc' = "emitted" /\ UNCHANGED <<scn, verdict>>
         /\ PrintT(<<"CASE", ToJson([scn |-> scn, model |-> verdict, mustRefuse |-> MustRefuse, mustHand |-> MustHand])>>)
 Next == Unravel \/ Signature \/ Schema \/ Verify \/ Emit
